@@ -368,3 +368,69 @@ def derivation_cases(P, fi, res):
     if ok and paths:
         res.ok({'function': fi.fq, 'accessor_reads': 'the field name of the record', 'registered_under': 'the renamed column name',
                 'annotations': [a.name for _, a, _ in fields]})
+
+
+# ----------------------------------------------------------------------
+# R-ATTACH (C11, C19): attaching a ledger binds every table name to a table over that ledger
+
+def rule_attach(P) -> RuleResult:
+    """sources.beancount.attach on terms, for a dsn with and without a file name: for every class in TABLES the name of the table is
+    bound (by a plain item store: whatever was bound before is replaced) to a new table built from the entries and options of *this*
+    attach - the loaded ones when the dsn names a file, the arguments otherwise - and the connection's options and errors receive the
+    options and errors of the same ledger.  A second attach (the shell's .reload, Connection.attach) therefore presents the new ledger."""
+    res = RuleResult('R-ATTACH')
+    res.exhaustive = True
+    fi = P.func('beanquery.sources.beancount', 'attach')
+    C = Sym('CONTEXT')
+    args = {'context': C, 'dsn': Sym('DSN'), 'entries': Sym('ENTRIES'), 'errors': Sym('ERRORS'), 'options': Sym('OPTIONS')}
+    if fi.params[:5] != list(args):
+        raise AnalysisError(f'{fi.fq}: parameters changed: {fi.params}')
+    n = 0
+    for p in Engine(P).paths(fi, dict(args)):
+        if p.outcome == 'raise':
+            continue
+        n += 1
+        loaded = [e for e in p.events if e[0] == 'call' and str(e[1]).endswith('load_file')]
+        if loaded:
+            ld = T('call', (loaded[0][1], loaded[0][2], loaded[0][3]))
+            ent, err, opt = (T('item', (ld, i)) for i in range(3))
+            case = 'dsn names a file'
+        else:
+            ent, err, opt = args['entries'], args['errors'], args['options']
+            case = 'ledger given as arguments'
+        depth = 0
+        bound = []
+        other_writes = []
+        for e in p.events:
+            if e[0] == 'loop-begin':
+                depth += 1 if 'TABLES' in show(e[1]) else 0
+            elif e[0] == 'loop-end':
+                depth -= 1 if 'TABLES' in show(e[1]) else 0
+            elif e[0] == 'store' and isinstance(e[1], T) and e[1].op == 'item' and e[1].args[0] == T('attr', (C, 'tables')):
+                bound.append((depth, e[1].args[1], e[2]))
+            elif e[0] == 'call' and str(e[1]).startswith('CONTEXT.tables.'):
+                other_writes.append(str(e[1]))
+        ok = True
+        good = [b for b in bound if b[0] > 0 and isinstance(b[1], T) and b[1].op == 'attr' and b[1].args[1] == 'name'
+                and isinstance(b[2], T) and b[2].op == 'call' and b[2].args[0] == show(b[1].args[0]) and tuple(b[2].args[1]) == (ent, opt) and not b[2].args[2]]
+        if not good:
+            ok = False
+            what = f'calls {other_writes}' if other_writes else f'stores {[(show(k)[:40], show(v)[:60]) for _, k, v in bound]}'
+            res.fail(fi.fq, 'attach:bind', f'attach ({case}) must bind, for each class in TABLES, context.tables[table.name] = table(entries, '
+                     f'options) with the entries and options of this ledger, replacing what was bound before; it {what}: after a second '
+                     f'attach (.reload, Connection.attach) the tables still present the first ledger, or another one', loc(fi))
+        calls = {str(e[1]): e[2] for e in p.events if e[0] == 'call'}
+        if tuple(calls.get('CONTEXT.options.update', ())) != (opt,):
+            ok = False
+            res.fail(fi.fq, 'attach:options', f'attach ({case}) must update the connection options with the options of this ledger; '
+                     f'got `{show(calls.get("CONTEXT.options.update"))[:80]}`', loc(fi))
+        if tuple(calls.get('CONTEXT.errors.extend', ())) != (err,):
+            ok = False
+            res.fail(fi.fq, 'attach:errors', f'attach ({case}) must add the errors of this ledger to the connection; '
+                     f'got `{show(calls.get("CONTEXT.errors.extend"))[:80]}`', loc(fi))
+        if ok:
+            res.ok({'case': case, 'binds': 'context.tables[table.name] = table(entries, options) for every class in TABLES',
+                    'options': 'updated from this ledger', 'errors': 'extended from this ledger'})
+    if n < 2:
+        raise AnalysisError(f'{fi.fq}: expected the two cases (file name present / absent) on terms, found {n}')
+    return res
